@@ -122,7 +122,7 @@ fn games(quick: bool) -> Vec<AbsReplay> {
 
 pub fn run() {
 	let cx = ctx();
-	cx.note("rule", json!(".slp: EVERY proper prefix (every byte offset 0..len-1) of finished well-formed replays (versions x 2 port configs x {default history, absence+rollback+items} x gecko x {1,2} ends x {metadata, none}) x skip_frames x compute_hash, plus cuts around every event boundary of the fixture replays: must be Err. .slpp: every proper prefix of the archives peppi::write produces for a subset of those games x {none, LZ4, ZSTD} (quick: one compression, every offset near a 512-byte tar block boundary and every 7th elsewhere): Err, or Ok with exactly the full game; no panic; no sleep (virtual clock) and no hang (watchdog). Every case is non-trivial (a crash point); distinct = (file, cut, options)"));
+	cx.note("rule", json!(".slp: EVERY proper prefix (every byte offset 0..len-1) of finished well-formed replays (versions x 2 port configs x {default history, absence+rollback+items} x gecko x {1,2} ends x {metadata, none}) x skip_frames x compute_hash, plus cuts around every event boundary of the fixture replays: must be Err. .slpp: every proper prefix of the archives peppi::write produces for a subset of those games x {none, LZ4, ZSTD} (quick: one game, 3 compressions, every offset near a 512-byte tar block boundary and every 7th elsewhere): Err, or Ok with exactly the full game; no panic; no sleep (virtual clock) and no hang (watchdog). Every case is non-trivial (a crash point); distinct = (file, cut, options)"));
 	cx.note("exhaustive", json!(!cx.quick()));
 	cx.note("assumptions", json!(["truncation is modelled as a reader whose data is a prefix (EOF where the file was cut)", "a case that sleeps 4 times or produces no result in 60 s ends the run with a livelock/hang verdict"]));
 	// .slp
@@ -199,7 +199,7 @@ pub fn run() {
 	};
 	for a in &slpp_games {
 		let bytes = record(a).doc.assemble();
-		for comp in if cx.quick() { vec![0u8] } else { vec![0u8, 1, 2] } {
+		for comp in [0u8, 1, 2] {
 			let g = read_slp(&bytes, false, true).unwrap_or_else(|f| machinery(&format!("C07 base does not read: {}", f.describe())));
 			let arch = write_slpp(g, comp).unwrap_or_else(|f| machinery(&format!("C07 base does not convert: {}", f.describe())));
 			archives.push((Arc::new(arch), format!("{} comp={}", a.describe(), comp)));
